@@ -379,7 +379,25 @@ def _build_main(job, emit):
         shutil.rmtree(bd, ignore_errors=True)
 
 
+def _die_with_parent():
+    """kill the whole process group (pools, managers, compilers) as soon as the harness worker is gone"""
+    import threading
+    ppid0 = os.getppid()
+
+    def _watch():
+        while True:
+            time.sleep(1.0)
+            if os.getppid() != ppid0:
+                try:
+                    os.killpg(os.getpgrp(), signal.SIGKILL)
+                finally:
+                    os._exit(9)
+    threading.Thread(target=_watch, daemon=True).start()
+
+
 def main(argv):
+    if os.getpgrp() == os.getpid():
+        _die_with_parent()
     job = json.loads(Path(argv[1]).read_text())
     resfile = job['results']
 
